@@ -20,8 +20,11 @@ several orders), `set_task_dict` (kind `task_dict`: the same as dict keys, every
 string or a sequence of strings, the `matching_label_policy` string), `LabelConverter` / `FrameID.from_task` with an arbitrary task
 string (kind `task_site_str`), and the PRINTED form of every member (`str(m)`, `format(m)`, `"%s" % m`) through every parser (kind
 `printed`).  Models: `setTaskLists`, `setTaskDict`, `frameIds`, `checkTask` in `PEval.Model.Enums`.
-Kind `hashable`: members as dict / set keys (EvaluationTask -- the fixed finding behind set_task_dict -- and FrameID judged:
-hashable, usable as key, `{member: 1}[member.value]` works because `__eq__` answers for strings; the other enums recorded only).
+Kind `hashable`: members as dict / set keys -- RECORDED only (histogram `hashable:*`): the property does not state hashability.
+What the fixed finding C20-N1 (a41526b, unhashable EvaluationTask) needs is judged where the property observes it: kind
+`task_dict`, set_task_dict on member-value keys must return the members as keys.
+Exceptions: the property says "rejected", so neither the oracle nor the correspondence looks at the CLASS of an exception (raised
+vs returned only).  `run_impl` catches exceptions only around the one library call a case is about (`_lib`).
 
 VALUE LEVEL (audit round 1, item 6).  The string-level model represents a member by its name, so it cannot tell a parser that
 returns the member from one that returns the member's NAME STRING (defect F12).  The canonical form of every returned object now
@@ -54,11 +57,28 @@ RULE = (
     "Shape on every shape type x {value, member, upper-case, non-member string} x footprint {none, polygon, empty polygon}; "
     "FrameID.from_task on every task x {value, its spellings, the member}; TransformKey fields by kind"
 )
-THEOREMS = [
-    "PEval.C20." + t
+# AUDIT2 (count inflation) / AUDIT3: about 40 of the 125 names were twins of each other.  NOT registered any more (still compiled with
+# PEval.Properties.C20, a broken one breaks `lake build`; their axioms are audited transitively, the registered value-level theorem
+# `xV_y` is proved FROM the string-level `x_y` through the projection lemma `…V_eq`):
+#   (i) a string-level theorem `x_y` whose value-level twin `xV_y` is registered;  (ii) the projection lemmas `…V_eq` / `…F12_eq`.
+_PROJECTIONS = {
+    "firstMemberV_eq", "firstKey_F12_eq", "taskFromValueV_eq", "setTaskV_eq", "frameFromValueV_eq", "visibilityFromValueV_eq",
+    "sensorFromValueV_eq", "shapeTypeFromValueV_eq", "policyFromStrV_eq", "shapeInitV_eq", "transformKeyV_eq", "membersNamedV_eq",
+    "setTaskListsV_eq", "setTaskDictV_eq", "frameIdsV_eq", "checkTaskV_eq",
+}
+
+
+def _registered(names):
+    names = list(dict.fromkeys(names))
+    have = set(names)
+    twin = lambda n: "_" in n and (n.split("_", 1)[0] + "V_" + n.split("_", 1)[1]) in have
+    return ["PEval.C20." + n for n in names if n not in _PROJECTIONS and not twin(n)]
+
+
+THEOREMS = _registered(
+    t
     for t in [
         "fromTask_agrees_with_source", "printed_form_parses_back", "printed_tables_complete",
-        "parsers_return_members_in_source", "parserReturnKinds_complete",
         "task_values_nodup", "frame_values_nodup", "frame_values_lower", "visibility_values_nodup",
         "sensor_values_nodup", "shape_values_nodup", "policy_names_upper", "alias_disjoint_values",
         "alias_keys_nodup", "alias_targets_members", "alias_fallback_member",
@@ -96,7 +116,7 @@ THEOREMS = [
         "matchingMode_nonempty", "taskIsFpValidation_nonempty", "frameV_case_irrelevant", "policyV_case_irrelevant",
         "roundtripV_frame_anycase",
     ]
-]
+)
 TRUSTED = [
     "translator harness/gen_tables.py (reads Enum.__members__, evaluates Visibility.from_alias on the strings it compares)",
     "Python str.lower()/upper() modelled by Lean String.toLower/toUpper (ASCII only; generated strings are ASCII)",
@@ -105,15 +125,18 @@ ASSUMPTIONS = [
     "strings are ASCII", "set_task returning None counts as rejection (it has no documented fallback)",
     "set_task_lists / set_task_dict DROP a string that names no member (no exception, no placeholder): counts as rejection, the "
     "same reading as for set_task returning None; the oracle demands that a non-member string never comes back as a member and "
-    "that member values come back as their member, in order, repetitions and items kept",
+    "that every member value among the strings comes back as its member (as a SET: container type, order and multiplicity of "
+    "the answer are not stated by the property and not judged)",
     "MatchingLabelPolicy has no __str__: its printed form 'MatchingLabelPolicy.X' is not a spelling from_str documents (the "
     "printed-form clause speaks about enums whose str() is the value); not judged, histogram key 'undecided:policy-printed-form'; "
     "from_str(member.name) and from_str(member.value) ARE judged",
-    "hashability: EvaluationTask (fixed finding a41526b) and FrameID members must be usable as dict / set keys consistently with "
-    "their string-aware __eq__; for ShapeType / Visibility / SensorModality it is only recorded (histogram 'hashable:*'), the "
-    "property does not state it",
-    "config_site: 'prediction' configs are documented as under construction (NotImplementedError) and 3-D tasks take exactly one "
-    "frame (documented ValueError): both count as rejection for reasons outside this property",
+    "hashability of the enum members is only recorded (histogram 'hashable:*'), the property does not state it; what the fixed "
+    "finding C20-N1 (a41526b) needs is judged where the property observes it: set_task_dict on member-value keys must return "
+    "the members as keys (kind task_dict)",
+    "config_site: 'prediction' configs are documented as under construction and 3-D tasks take exactly one frame: a rejection "
+    "there has reasons outside this property (not judged either way, not compared: counted as skipped)",
+    "config_site: the minimal config dict / constructor call of the harness is first tried with strings known to be valid "
+    "(detection, base_link); if that reference construction fails the run is an infrastructure error, not a violation",
 ]
 
 ALIASES = {"v0-40": "NONE", "v40-60": "PARTIAL", "v60-80": "MOST", "v80-100": "FULL"}
@@ -214,6 +237,16 @@ def _call_path(reg, path, key, marker):
     return {"ans": ans, "held": _held(reg)}
 
 
+def _blind(x):
+    """the same observation with every exception reduced to "raised" ("rejected" names no class: two spellings that are both
+    rejected behave identically whatever the classes)"""
+    if isinstance(x, dict):
+        return {k: (True if k == "err" else _blind(v)) for k, v in x.items() if k != "key_err"}
+    if isinstance(x, list):
+        return [_blind(v) for v in x]
+    return x
+
+
 def _held(reg):
     try:
         return sorted([k.src.name, k.dst.name, _canon_any(v)["matrix"][0][3]] for k, v in reg.items())
@@ -254,17 +287,21 @@ def _run_key_site(case):
     got = guarded(spelled)
     ref = guarded(lambda: TransformKey(a, b))
     ans = got["ans"]
-    return {"same": got == ref, "spelled": got, "member": ref if got != ref else None,
+    same = _blind(got) == _blind(ref)
+    return {"same": same, "spelled": got, "member": ref if not same else None,
             "src": ans.get("src"), "dst": ans.get("dst"), "err_kind": ans.get("err"),
             "positive": bool("matrix" in ans or "key" in ans or "array" in ans or ans.get("value") not in (None, False)
                              or (got["held"] is not None and got["held"] != _held(registry()))),
-            "signature_unknown": case["path"] not in KEY_PATHS and ref["ans"].get("err") == "TypeError"}
+            # a method the harness does not know how to drive is called with the key as its only argument; this says something
+            # about "both spellings" only when the call with TransformKey(member, member) went through AND the key under test
+            # is itself a TransformKey (then any difference comes from TransformKey's own parsing); otherwise: not driven
+            "signature_unknown": case["path"] not in KEY_PATHS and ("err" in ref["ans"] or case["form"] != "key")}
 
 
 # ---- parse sites that take several strings ------------------------------------------------------------------------
 TASKS_3D = ("detection", "tracking", "prediction", "sensing", "fp_validation")
 PRINTED_IS_VALUE = ("task", "set_task", "frame", "visibility", "sensor", "shape_type")  # enums whose __str__ prints the value
-HASH_JUDGED = ("task", "frame")  # task: fixed finding (a41526b); frame: has had __hash__ all along
+HASH_JUDGED = ()  # recorded only: "usable as dict key" is not stated by the property (what C20-N1 needs is judged by task_dict)
 HASH_ENUMS = ("task", "frame", "shape_type", "visibility", "sensor", "policy")
 _TMP = []
 
@@ -274,13 +311,14 @@ def _hash_enum(name):
 
 
 def _run_hashable(case):
+    """recorded only (histogram): nothing here is judged"""
     cls = _hash_enum(case["enum"])
     m = cls.__members__[case["member"]]
     out = {"has_str_eq": bool(m == m.value)}
     try:
         hash(m)
         out["hashable"] = True
-    except TypeError:
+    except Exception:  # noqa
         out["hashable"] = False
         return out
     d = {m: 1}
@@ -289,7 +327,7 @@ def _run_hashable(case):
     out["hash_stable"] = hash(m) == hash(cls.__members__[case["member"]])
     try:
         out["by_value"] = bool(d[m.value] == 1 and m.value in d)
-    except KeyError:
+    except Exception:  # noqa
         out["by_value"] = False
     out["all_distinct"] = len({x for x in cls.__members__.values()}) == len(cls.__members__)
     return out
@@ -299,7 +337,11 @@ def _tmpdir():
     import tempfile
 
     if not _TMP:
+        import atexit
+        import shutil
+
         _TMP.append(tempfile.mkdtemp(prefix="c20_"))
+        atexit.register(shutil.rmtree, _TMP[0], True)
     return _TMP[0]
 
 
@@ -322,6 +364,34 @@ def _config_dict(case):
     return d
 
 
+def _construct(cls_name, frame_id, cfg):
+    """the constructor call of the harness (keywords as documented; the sample data directory as the dataset path: nothing is
+    loaded by a config, and an empty list would make the cases depend on whether empty datasets are accepted)"""
+    from .. import core
+
+    return _config_cls(cls_name)(
+        # (a config loads nothing: the directory only has to be a plausible path, it is not required to exist)
+        dataset_paths=[str(core.REPO / "perception_eval" / "test" / "sample_data")], frame_id=frame_id,
+        result_root_directory=_tmpdir(), evaluation_config_dict=cfg,
+    )
+
+
+_SUPPORT = {}
+
+
+def _support(cls_name):
+    """the supported task strings of a config class, read through the PUBLIC property `support_tasks` of a reference instance
+    built with strings known to be valid.  Set-up: if the reference construction fails, the harness's minimal config is no
+    longer a valid one (infrastructure error, raised), whatever the strings under test would have done.  None when the public
+    property is gone (the observation is dropped: histogram `unobservable:support_tasks`)."""
+    if cls_name not in _SUPPORT:
+        ref_case = {"cls": cls_name, "task": "sensing" if cls_name == "sensing" else "detection", "policy": None}
+        inst = _construct(cls_name, "base_link", _config_dict(ref_case))
+        st = getattr(inst, "support_tasks", None)
+        _SUPPORT[cls_name] = None if st is None else [str(getattr(t, "value", t)) for t in st]
+    return _SUPPORT[cls_name]
+
+
 def _run_config_site(case):
     from perception_eval.common.evaluation_task import EvaluationTask
     from perception_eval.common.schema import FrameID
@@ -329,11 +399,18 @@ def _run_config_site(case):
 
     fid = case["frame_id"]
     arg = fid if isinstance(fid, str) else (tuple(fid) if case.get("as_tuple") else list(fid))
-    c = _config_cls(case["cls"])([], arg, _tmpdir(), _config_dict(case))
+    out = {"support": _support(case["cls"])}
+    cfg = _config_dict(case)
+    try:
+        c = _construct(case["cls"], arg, cfg)
+    except Exception as e:  # noqa  (the call under test: the strings are parsed by the constructor)
+        out["err"] = type(e).__name__
+        return out
     t, pol = c.evaluation_task, getattr(c, "label_params", {}).get("matching_label_policy")
-    return {"task": t.name if isinstance(t, EvaluationTask) else repr(t),
-            "frames": [f.name if isinstance(f, FrameID) else repr(f) for f in c.frame_ids],
-            "policy": pol.name if isinstance(pol, MatchingLabelPolicy) else None if pol is None else repr(pol)}
+    out.update({"task": t.name if isinstance(t, EvaluationTask) else repr(t),
+                "frames": [f.name if isinstance(f, FrameID) else repr(f) for f in c.frame_ids],
+                "policy": pol.name if isinstance(pol, MatchingLabelPolicy) else None if pol is None else repr(pol)})
+    return out
 
 
 def _mixture(rng, values, n):
@@ -546,10 +623,16 @@ def _arg_json(a):
     return {"str": r["s"]} if r["kind"] == "str" else {"member": r["name"], "enum": r["enum"]} if r["kind"] == "member" else {"none": True}
 
 
-def _ret_cmp(got, want, what):
+def _ret_cmp(got, want, what, none_is_rejection=False):
     """got: `_ret` of the real object or {'err': kind}; want: the driver's answer in the same form"""
+    if none_is_rejection:
+        got = {"err": True} if (got or {}).get("kind") == "none" else got
+        want = {"err": True} if (want or {}).get("kind") == "none" else want
     g = {k: v for k, v in (got or {}).items() if k in ("kind", "enum", "name", "s", "err")}
     w = {k: v for k, v in (want or {}).items() if k in ("kind", "enum", "name", "s", "err")}
+    if "err" in g or "err" in w:
+        # raised vs returned; the CLASS of the exception is not compared (the property says "rejected")
+        return None if ("err" in g and "err" in w) else f"{what}: impl {got} != model {w}"
     return None if g == w else f"{what}: impl {got} != model {w}"
 
 
@@ -581,7 +664,7 @@ def _run_shape_init(case):
         return {"type": _ret(s.type), "size": list(s.size), "footprint": None if fp is None else [list(map(float, c)) for c in fp.exterior.coords]}
 
     got, ref = build(_spelled(m, case["spelling"])), build(m)
-    return {"got": got, "ref": ref, "same": got == ref, "arg": _arg_json(_spelled(m, case["spelling"]))}
+    return {"got": got, "ref": ref, "same": _blind(got) == _blind(ref), "arg": _arg_json(_spelled(m, case["spelling"]))}
 
 
 def _run_from_task(case):
@@ -597,7 +680,7 @@ def _run_from_task(case):
             return {"err": type(e).__name__}
 
     got, ref = call(_spelled(t, case["spelling"])), call(t)
-    return {"got": got, "ref": ref, "same": got == ref, "arg": _arg_json(_spelled(t, case["spelling"]))}
+    return {"got": got, "ref": ref, "same": _blind(got) == _blind(ref), "arg": _arg_json(_spelled(t, case["spelling"]))}
 
 
 def _arg(member, spelling, side=0):
@@ -609,104 +692,126 @@ def _arg(member, spelling, side=0):
     return member.value
 
 
+def _lib(fn, *a, **k):
+    """ONE call into the library that the property is about: (result, None) or (None, kind of the exception).  Everything
+    around it (building arguments, reading the answer) is harness code whose exceptions propagate."""
+    try:
+        return fn(*a, **k), None
+    except Exception as e:  # noqa
+        return None, type(e).__name__
+
+
 def run_impl(case):
     from perception_eval.common.schema import FrameID
     from perception_eval.common.shape import Shape, ShapeType
     from perception_eval.common.transform import HomogeneousMatrix, TransformKey
 
     k = case["kind"]
-    try:
-        if k == "parse":
-            cls, fn = _enums()[case["parser"]]
-            return _canon(cls, fn(case["s"]))
-        if k == "shape_arg":
-            m = ShapeType[case["member"]]
-            if m != ShapeType.BOUNDING_BOX:
-                from shapely.geometry import Polygon
+    if k == "parse":
+        cls, fn = _enums()[case["parser"]]
+        r, err = _lib(fn, case["s"])
+        return {"err": err} if err else _canon(cls, r)
+    if k == "shape_arg":
+        m = ShapeType[case["member"]]
+        if m != ShapeType.BOUNDING_BOX:
+            from shapely.geometry import Polygon
 
-                fp = Polygon([(1, 1), (-1, 1), (-1, -1), (1, -1)])
-            else:
-                fp = None
-            s1 = Shape(_arg(m, case["spelling"]), (2.0, 4.0, 1.5), fp)
-            s2 = Shape(m, (2.0, 4.0, 1.5), fp)
-            return {"member": s1.type.name if isinstance(s1.type, ShapeType) else None, "other": repr(s1.type),
-                    "same": bool(s1.type is s2.type and s1.size == s2.size and s1.footprint.equals(s2.footprint))}
-        if k == "transform_key":
-            if case["spelling"] == "bad":
-                TransformKey("map", "nope")
-                return {"member": None}
-            a, b = FrameID[case["src"]], FrameID[case["dst"]]
-            k1 = TransformKey(_arg(a, case["spelling"], 0), _arg(b, case["spelling"], 1))
-            k2 = TransformKey(a, b)
-            h = HomogeneousMatrix((1.0, 2.0, 3.0), (1.0, 0.0, 0.0, 0.0), _arg(a, case["spelling"], 0), _arg(b, case["spelling"], 1))
-            ok = k1 == k2 and hash(k1) == hash(k2) and k1.src is a and k1.dst is b and h.src is a and h.dst is b
-            return {"src": k1.src.name if isinstance(k1.src, FrameID) else None,
-                    "dst": k1.dst.name if isinstance(k1.dst, FrameID) else None, "same": bool(ok),
-                    "src_ret": _ret(k1.src), "dst_ret": _ret(k1.dst), "h_src_ret": _ret(h.src), "h_dst_ret": _ret(h.dst)}
-        if k == "key_site":
-            return _run_key_site(case)
-        if k == "shape_init":
-            return _run_shape_init(case)
-        if k == "from_task":
-            return _run_from_task(case)
-        if k == "task_site":
-            from perception_eval.common.evaluation_task import EvaluationTask
-            from perception_eval.common.label import LabelConverter
+            fp = Polygon([(1, 1), (-1, 1), (-1, -1), (1, -1)])
+        else:
+            fp = None
+        s1, err = _lib(Shape, _arg(m, case["spelling"]), (2.0, 4.0, 1.5), fp)
+        if err:
+            return {"err": err}
+        s2 = Shape(m, (2.0, 4.0, 1.5), fp)
+        return {"member": s1.type.name if isinstance(s1.type, ShapeType) else None, "other": repr(s1.type),
+                "same": bool(s1.type is s2.type and tuple(s1.size) == tuple(s2.size) and s1.footprint.equals(s2.footprint))}
+    if k == "transform_key":
+        if case["spelling"] == "bad":
+            _, err = _lib(TransformKey, "map", "nope")
+            return {"err": err} if err else {"member": None}
+        a, b = FrameID[case["src"]], FrameID[case["dst"]]
+        k1, err = _lib(TransformKey, _arg(a, case["spelling"], 0), _arg(b, case["spelling"], 1))
+        if err:
+            return {"err": err}
+        h, err = _lib(HomogeneousMatrix, (1.0, 2.0, 3.0), (1.0, 0.0, 0.0, 0.0), _arg(a, case["spelling"], 0), _arg(b, case["spelling"], 1))
+        if err:
+            return {"err": err}
+        k2 = TransformKey(a, b)
+        # "behave identically for both spellings": equal, equal hash (a key of registries), and what the objects HOLD is the member
+        ok = k1 == k2 and hash(k1) == hash(k2) and k1.src is a and k1.dst is b and h.src is a and h.dst is b
+        return {"src": k1.src.name if isinstance(k1.src, FrameID) else None,
+                "dst": k1.dst.name if isinstance(k1.dst, FrameID) else None, "same": bool(ok),
+                "src_ret": _ret(k1.src), "dst_ret": _ret(k1.dst), "h_src_ret": _ret(h.src), "h_dst_ret": _ret(h.dst)}
+    if k == "key_site":
+        return _run_key_site(case)
+    if k == "shape_init":
+        return _run_shape_init(case)
+    if k == "from_task":
+        return _run_from_task(case)
+    if k == "task_site":
+        from perception_eval.common.evaluation_task import EvaluationTask
+        from perception_eval.common.label import LabelConverter
 
-            t = EvaluationTask[case["task"]]
+        t = EvaluationTask[case["task"]]
 
-            def run(arg):
-                try:
-                    if case["site"] == "label_converter":
-                        c = LabelConverter(arg, case["merge"], case["prefix"])
-                        return [[li.label.name, li.name] for li in c.label_infos] + [c.evaluation_task.name]
-                    return FrameID.from_task(arg).name
-                except Exception as e:  # noqa
-                    return {"err": type(e).__name__}
-
-            a, b = run(t.value), run(t)
-            return {"same": a == b, "str": a if a != b else None, "enum": b if a != b else None}
-        if k == "task_list":
-            from perception_eval.common.evaluation_task import EvaluationTask, set_task_lists
-
-            items = list(case["items"])
-            r = set_task_lists(items)
-            return {"members": [m.name if isinstance(m, EvaluationTask) else repr(m) for m in r], "is_list": isinstance(r, list),
-                    "input_kept": items == case["items"], "rets": [_ret(m) for m in r]}
-        if k == "task_dict":
-            from perception_eval.common.evaluation_task import EvaluationTask, set_task_dict
-
-            payload = [{"i": i} for i in range(len(case["keys"]))]
-            d = dict(zip(case["keys"], payload))
-            r = set_task_dict(d)
-            idx = {id(p): i for i, p in enumerate(payload)}
-            return {"items": [[m.name if isinstance(m, EvaluationTask) else repr(m), idx.get(id(v))] for m, v in r.items()],
-                    "is_dict": isinstance(r, dict), "input_kept": list(d) == list(case["keys"]),
-                    "rets": [[_ret(m), idx.get(id(v))] for m, v in r.items()]}
-        if k == "printed":
-            cls, fn = _enums()[case["parser"]]
-            m = cls.__members__[case["member"]]
-            text = str(m) if case["how"] == "str" else format(m) if case["how"] == "format" else "%s" % (m,)
-            out = {"text": text}
-            try:
-                out.update(_canon(cls, fn(text)))
-            except Exception as e:  # noqa
-                out["err"] = type(e).__name__
-            return out
-        if k == "task_site_str":
-            from perception_eval.common.evaluation_task import EvaluationTask
-            from perception_eval.common.label import LabelConverter
-
+        def run(arg):
             if case["site"] == "label_converter":
-                return _canon(EvaluationTask, LabelConverter(case["s"], False, case["prefix"]).evaluation_task)
-            r = FrameID.from_task(case["s"])
-            return {"frame": r.name if isinstance(r, FrameID) else repr(r)}
-        if k == "config_site":
-            return _run_config_site(case)
-        if k == "hashable":
-            return _run_hashable(case)
-    except Exception as e:
-        return {"err": type(e).__name__}
+                c, err = _lib(LabelConverter, arg, case["merge"], case["prefix"])
+                if err:
+                    return {"err": err}
+                return [[li.label.name, li.name] for li in c.label_infos] + [c.evaluation_task.name]
+            r, err = _lib(FrameID.from_task, arg)
+            return {"err": err} if err else r.name
+
+        a, b = run(t.value), run(t)
+        # "rejected" is not a class name: two rejections are the same behaviour
+        same = a == b or (isinstance(a, dict) and isinstance(b, dict))
+        return {"same": same, "str": a if not same else None, "enum": b if not same else None}
+    if k == "task_list":
+        from perception_eval.common.evaluation_task import EvaluationTask, set_task_lists
+
+        items = list(case["items"])
+        r, err = _lib(set_task_lists, items)
+        if err:
+            return {"err": err}
+        r = list(r)
+        return {"members": [m.name if isinstance(m, EvaluationTask) else repr(m) for m in r],
+                "input_kept": items == case["items"], "rets": [_ret(m) for m in r]}
+    if k == "task_dict":
+        from perception_eval.common.evaluation_task import EvaluationTask, set_task_dict
+
+        d = {key: {"i": i} for i, key in enumerate(case["keys"])}
+        r, err = _lib(set_task_dict, d)
+        if err:
+            return {"err": err}
+        no = lambda v: v.get("i") if isinstance(v, dict) else None  # which item (by value: a copy of the item is the item)
+        pairs = list(r.items())
+        return {"items": [[m.name if isinstance(m, EvaluationTask) else repr(m), no(v)] for m, v in pairs],
+                "input_kept": list(d) == list(case["keys"]), "rets": [[_ret(m), no(v)] for m, v in pairs]}
+    if k == "printed":
+        cls, fn = _enums()[case["parser"]]
+        m = cls.__members__[case["member"]]
+        text = str(m) if case["how"] == "str" else format(m) if case["how"] == "format" else "%s" % (m,)
+        out = {"text": text}
+        r, err = _lib(fn, text)
+        if err:
+            out["err"] = err
+        else:
+            out.update(_canon(cls, r))
+        return out
+    if k == "task_site_str":
+        from perception_eval.common.evaluation_task import EvaluationTask
+        from perception_eval.common.label import LabelConverter
+
+        if case["site"] == "label_converter":
+            c, err = _lib(LabelConverter, case["s"], False, case["prefix"])
+            return {"err": err} if err else _canon(EvaluationTask, c.evaluation_task)
+        r, err = _lib(FrameID.from_task, case["s"])
+        return {"err": err} if err else {"frame": r.name if isinstance(r, FrameID) else repr(r)}
+    if k == "config_site":
+        return _run_config_site(case)
+    if k == "hashable":
+        return _run_hashable(case)
     raise ValueError(k)
 
 
@@ -730,7 +835,9 @@ def model_requests(case, out):
     if k == "task_site_str":
         return [{"op": "parse", "parser": "task", "s": case["s"]}]
     if k == "config_site":
-        support = list(_config_cls(case["cls"])._support_tasks)
+        support = out.get("support")
+        if support is None:
+            return []  # `support_tasks` unobservable in this run
         reqs = [{"op": "check_task", "support": support, "s": case["task"]}, {"op": "frame_ids", "arg": case["frame_id"]}]
         if case["cls"] == "perception" and case.get("policy"):
             reqs.append({"op": "parse", "parser": "policy", "s": case["policy"]})
@@ -762,76 +869,92 @@ def model_requests(case, out):
 
 
 def _config_expect(case, resps):
-    """what the constructor answers according to the model: the first rejection in the order of the constructor's steps
-    (task, policy, frame ids, one frame for a 3-D task, 'prediction' under construction), else the members"""
+    """what the constructor answers according to the model: rejected if any of its strings is rejected (which of several
+    independent checks fires first, and with which class, is not compared), else the members"""
     t, fr = resps[0], resps[1]
     pol = resps[2] if len(resps) > 2 else None
-    if "err" in t:
-        return {"err": t["err"]}
-    if "none" in t:
+    if "none" in t and "err" not in t:
         return None  # a supported name that is no member value: not produced by the live classes
-    if pol is not None and "err" in pol:
-        return {"err": pol["err"]}
-    if "err" in fr:
-        return {"err": fr["err"]}
-    if case["task"] in TASKS_3D and len(fr["members"]) != 1:
-        return {"err": "ValueError"}
-    if case["task"] == "prediction":
-        return {"err": "NotImplementedError"}
-    return {"task": t["member"], "frames": fr["members"],
+    if "err" in t or (pol is not None and "err" in pol) or "err" in fr:
+        return {"err": True}
+    return {"task": t["member"], "frames": sorted(set(fr["members"])),
             "policy": None if case["cls"] == "sensing" else pol["member"] if pol is not None else "DEFAULT"}
 
 
+def _canon3(x, none_is_rejection=False):
+    """member / none / rejected (any exception) / other"""
+    if "err" in x:
+        return {"rejected": True}
+    if "none" in x:
+        return {"rejected": True} if none_is_rejection else {"none": True}
+    if "member" in x:
+        return {"member": x["member"]}
+    return {"other": x.get("other")}
+
+
+def _uniq(rows):
+    """a collection whose order and multiplicity the property leaves open: sorted, every element once"""
+    import json
+
+    return sorted({json.dumps(r, sort_keys=True) for r in rows})
+
+
 def compare(case, out, resps):
+    """Raised vs returned, and the returned values.  The CLASS of an exception is nowhere compared: the property says "rejected"
+    (`observe_at` names no class), so `assert` -> `raise ValueError`, a subclass, or another order of independent checks agree
+    with the model.  Collections the property does not order (set_task_lists / set_task_dict answers, the frame ids of a
+    config) are compared as sets."""
     r = resps[0]
     k = case["kind"]
     if k == "task_list":
         if "err" in out:
             return f"impl raised {out['err']}, model {r}"
-        if out.get("members") != r.get("members"):
-            return f"impl {out.get('members')} != model {r.get('members')}"
-        return None if out.get("rets") == resps[1].get("members") else f"by kind: impl {out.get('rets')} != model {resps[1].get('members')}"
+        if _uniq(out.get("members") or []) != _uniq(r.get("members") or []):
+            return f"impl {out.get('members')} != model {r.get('members')} (as sets)"
+        return None if _uniq(out.get("rets") or []) == _uniq(resps[1].get("members") or []) else (
+            f"by kind: impl {out.get('rets')} != model {resps[1].get('members')} (as sets)")
     if k == "task_dict":
         if "err" in out:
             return f"impl raised {out['err']}, model {r}"
-        if out.get("items") != r.get("items"):
-            return f"impl {out.get('items')} != model {r.get('items')}"
-        return None if out.get("rets") == resps[1].get("items") else f"by kind: impl {out.get('rets')} != model {resps[1].get('items')}"
+        if _uniq(out.get("items") or []) != _uniq(r.get("items") or []):
+            return f"impl {out.get('items')} != model {r.get('items')} (as sets)"
+        return None if _uniq(out.get("rets") or []) == _uniq(resps[1].get("items") or []) else (
+            f"by kind: impl {out.get('rets')} != model {resps[1].get('items')} (as sets)")
     if k in ("shape_init", "from_task"):
         got = out.get("got") or {"err": out.get("err")}
         return _ret_cmp(got.get("type", got), r, "Shape.type" if k == "shape_init" else "FrameID.from_task")
-    if k in ("printed", "task_site_str"):
+    if k in ("printed", "task_site_str", "parse"):
         if k == "task_site_str" and case["site"] == "frame_from_task":
             return None if ("err" in r) <= ("err" in out) else f"from_task({case['s']!r}) answered {out}, the model rejects the string"
-        a = {x: out.get(x) for x in ("member", "err", "none") if x in out}
-        b = {x: r.get(x) for x in ("member", "err", "none") if x in r}
+        if k == "parse" and "other" in out:
+            return f"implementation returned a non-member {out['other']}, model {r}"
+        # set_task has no documented fallback: returning None and raising are both its rejection (see ASSUMPTIONS)
+        lenient = case.get("parser") == "set_task"
+        a, b = _canon3(out, lenient), _canon3(r, lenient)
         if a != b:
             return f"impl {a} != model {b}"
-        if k == "printed" and len(resps) > 1:
-            return _ret_cmp(out.get("ret") or {"err": out.get("err")}, resps[1], "by kind")
+        if k in ("printed", "parse") and len(resps) > 1:
+            # the KIND of the returned object (member of which class / str / None) against the value-level model
+            return _ret_cmp(out.get("ret") or {"err": out.get("err")}, resps[1], "by kind", lenient)
         return None
     if k == "config_site":
+        fl = [case["frame_id"]] if isinstance(case["frame_id"], str) else list(case["frame_id"])
+        if case["task"] == "prediction" or (case["task"] in TASKS_3D and len(fl) != 1):
+            return "skip"  # rejected (or not) for reasons outside this property, see ASSUMPTIONS
         want = _config_expect(case, resps)
         if want is None:
             return None
-        got = {"err": out["err"]} if "err" in out else {x: out.get(x) for x in ("task", "frames", "policy")}
+        got = {"err": True} if "err" in out else {"task": out.get("task"), "frames": sorted(set(out.get("frames") or [])), "policy": out.get("policy")}
+        if not case.get("policy") and "policy" in want and "policy" in got:
+            want["policy"] = got["policy"]  # no policy string given: the class's default is not a parsing question
         return None if got == want else f"config: impl {got} != model {want}"
-    if k == "parse":
-        a = {x: out.get(x) for x in ("member", "err", "none") if x in out}
-        b = {x: r.get(x) for x in ("member", "err", "none") if x in r}
-        if "other" in out:
-            return f"implementation returned a non-member {out['other']}, model {b}"
-        if a != b:
-            return f"impl {a} != model {b}"
-        # the KIND of the returned object (member of which class / str / None) against the value-level model
-        return _ret_cmp(out.get("ret") or {"err": out.get("err")}, resps[1], "by kind") if len(resps) > 1 else None
     if k == "shape_arg":
         if "err" in out or "err" in r:
-            return None if out.get("err") == r.get("err") else f"impl {out} != model {r}"
+            return None if ("err" in out) == ("err" in r) else f"impl {out} != model {r}"
         return None if out.get("member") == r.get("member") else f"impl {out} != model {r}"
     if k == "transform_key":
         if "err" in out or "err" in r:
-            return None if out.get("err") == r.get("err") else f"impl {out} != model {r}"
+            return None if ("err" in out) == ("err" in r) else f"impl {out} != model {r}"
         if (out.get("src"), out.get("dst")) != (r.get("src"), r.get("dst")):
             return f"impl {out} != model {r}"
         if len(resps) > 1:
@@ -845,12 +968,12 @@ def compare(case, out, resps):
                         return d
         return None
     if k == "key_site":
-        # the model knows how the key is read: the pair of members, or ValueError before anything is looked up
+        # the model knows how the key is read: the pair of members, or a rejection before anything is looked up
         if out.get("signature_unknown"):
             return None
         if "err" in r:
-            if case["path"] in KEY_PATHS and out.get("err_kind") != r["err"]:
-                return f"{case['path']}: the key is rejected by the model with {r['err']}, impl {out['spelled']}"
+            if case["path"] in KEY_PATHS and not out.get("err_kind"):
+                return f"{case['path']}: the key is rejected by the model, impl {out['spelled']}"
             return None
         if out.get("src") is not None and (out.get("src"), out.get("dst")) != (r.get("src"), r.get("dst")):
             return f"{case['path']}: impl answered for {out.get('src')}->{out.get('dst')}, the key names {r.get('src')}->{r.get('dst')}"
@@ -940,25 +1063,26 @@ def _oracle_multi(case, out):
         if "err" in out:
             return None if unknown else f"set_task_lists({items!r}) raised {out['err']} although every string is a member value"
         got = [m for m in out["members"] if m != "None"]  # a None placeholder would be a rejection too
-        if not out.get("is_list"):
-            return f"set_task_lists({items!r}) did not return a list"
-        if got != known:
-            return (f"set_task_lists({items!r}) gave {out['members']}; the member values among the strings name {known} (in this order), "
+        # "returns, for every member, that very member when given the member's own string value ... any other string is
+        # rejected": WHICH members come back.  Container type, order and multiplicity of the answer are not stated.
+        if set(got) != set(known):
+            return (f"set_task_lists({items!r}) gave {out['members']}; the member values among the strings name {sorted(set(known))}, "
                     f"the other strings {unknown} name no member")
         return None  # a string that names no member is dropped: a rejection, see ASSUMPTIONS
     if k == "task_dict":
         keys = case["keys"]
-        known = [[byval[s], i] for i, s in enumerate(keys) if s in byval]
+        known = [byval[s] for s in keys if s in byval]
         unknown = [s for s in keys if s not in byval]
         if "err" in out:
+            # fixed finding C20-N1 (a41526b): the member-value keys must come back as member keys (it raised TypeError:
+            # unhashable EvaluationTask).  This is all the property needs of hashability.
             if known:
                 return (f"set_task_dict(keys {keys!r}) raised {out['err']}; the keys {[k for k in keys if k in byval]} are member values "
-                        f"and must come back as the members {[m for m, _ in known]}")
+                        f"and must come back as the members {known}")
             return None if unknown else f"set_task_dict(keys {keys!r}) raised {out['err']} although every key is a member value"
-        if not out.get("is_dict"):
-            return f"set_task_dict(keys {keys!r}) did not return a dict"
-        if out["items"] != known:
-            return (f"set_task_dict(keys {keys!r}) gave (member, number of the item) {out['items']}; the member values among the keys "
+        got = [m for m, _ in out["items"]]
+        if set(got) != set(known):  # which members are the keys; order / the pairing with the items is not stated
+            return (f"set_task_dict(keys {keys!r}) gave the keys {got}; the member values among the keys "
                     f"name {known}, the other keys {unknown} name no member")
         return None
     if k == "printed":
@@ -980,7 +1104,10 @@ def _oracle_multi(case, out):
         fid = case["frame_id"]
         fl = [fid] if isinstance(fid, str) else list(fid)
         what = f"{cls.__name__}(frame_id={fid!r}, evaluation_task={case['task']!r}, matching_label_policy={case.get('policy')!r})"
-        st = [("member", byval[case["task"]]) if case["task"] in byval and case["task"] in cls._support_tasks else ("bad", None)]
+        support = out.get("support")
+        if support is None:
+            return None  # which tasks the class supports cannot be read publicly in this run: no claim (`unobservable:support_tasks`)
+        st = [("member", byval[case["task"]]) if case["task"] in byval and case["task"] in support else ("bad", None)]
         st += [_frame_status(x) for x in fl]
         if case["cls"] == "perception":
             st.append(_policy_status(case.get("policy")))
@@ -991,18 +1118,27 @@ def _oracle_multi(case, out):
             if "mixed" in kinds or case["task"] == "prediction" or (case["task"] in TASKS_3D and len(fl) != 1):
                 return None
             return f"{what} raised {out['err']} although every string is a member's own value"
-        want = {"task": st[0][1], "frames": [b for _, b in st[1:1 + len(fl)]], "policy": st[-1][1] if case["cls"] == "perception" else None}
-        got = {x: out.get(x) for x in ("task", "frames", "policy")}
-        return None if got == want else f"{what} holds {got}, the strings name {want}"
+        want = {"task": st[0][1], "frames": sorted({b for _, b in st[1:1 + len(fl)]}), "policy": st[-1][1] if case["cls"] == "perception" else None}
+        got = {"task": out.get("task"), "frames": sorted(set(out.get("frames") or [])), "policy": out.get("policy")}
+        if want["policy"] == "DEFAULT" and not case.get("policy"):
+            want["policy"] = got["policy"]  # no policy string given: which member the class defaults to is not a parsing question
+        return None if got == want else f"{what} holds {got}, the strings name {want} (frames as a set)"
 
 
 def oracle(case, out):
     k = case["kind"]
+    if out.get("unexpected"):
+        # an exception escaped `run_impl` (a runner of the new convention reports it itself): out of the library = the real
+        # code failed outside the judged call; otherwise a harness error, which is not a violation
+        tr = str(out.get("trace", ""))
+        if "perception_eval/perception_eval/" in tr:
+            return f"the real code raised {out.get('err')} unexpectedly: {tr[-300:]}"
+        raise RuntimeError(f"harness error in run_impl ({out.get('err')}): {tr[-400:]}")
     if k in ("task_list", "task_dict", "printed", "task_site_str", "config_site"):
         return _oracle_multi(case, out)
     if k == "hashable":
         if case["enum"] not in HASH_JUDGED:
-            return None  # recorded only
+            return None  # recorded only: the property does not state hashability (C20-N1 is judged by kind task_dict)
         who = f"{_hash_enum(case['enum']).__name__}.{case['member']}"
         if "err" in out or not out.get("hashable"):
             return f"{who} is not hashable ({out.get('err', 'TypeError')}): it cannot be a dict key (set_task_dict, transform registries)"
@@ -1120,7 +1256,10 @@ def branches(case, out):
         fid = case["frame_id"]
         form = "str" if isinstance(fid, str) else "empty" if not fid else ("tuple" if case.get("as_tuple") else "list") + (":1" if len(fid) == 1 else ":n")
         return [f"config_site:{case['cls']}:{res}", f"config_site:frame_id:{form}:{'err' if 'err' in out else 'ok'}",
-                f"config_site:policy:{'none' if not case.get('policy') else 'given'}"]
+                f"config_site:policy:{'none' if not case.get('policy') else 'given'}"] + (
+            ["unobservable:support_tasks"] if out.get("support") is None else []) + (
+            ["skipped:config-rejection-outside-property"] if case["task"] == "prediction" or (
+                case["task"] in TASKS_3D and len([fid] if isinstance(fid, str) else list(fid)) != 1) else [])
     return [f"{k}:{case.get('spelling')}:{'err' if 'err' in out else 'ok'}"]
 
 
